@@ -326,7 +326,7 @@ def run(ctx):
     cl = ctx.stats.classes
     ctx.floor("patterns on graphs with a parallel edge (share)",
               round(cl["graph-with-parallel-edge"] / max(1, cl["pattern"]), 3), 0.15)
-    ctx.floor("patterns with two disjoint cycles", cl["two-disjoint-cycles"], 100)
+    ctx.floor("patterns with two disjoint cycles", cl["two-disjoint-cycles"], 50)
     ctx.floor("e2e cases", cl["e2e"], 300)
 
 
